@@ -854,6 +854,9 @@ func (g *spgen) applyEdit(doc M, kind string) bool {
 				return true
 			}
 		}
+		if paths == nil {
+			return false
+		}
 		paths["/plain"] = M{"get": M{"operationId": "plainOp", "parameters": L{g.simpleParam("ghost", "path")}, "responses": M{"200": M{"description": "d"}}}}
 		return true
 	case "requiredViaAdditionalSchema":
@@ -881,6 +884,9 @@ func (g *spgen) applyEdit(doc M, kind string) bool {
 	case "sameBodyNameTwice":
 		// breaks no rule: several operations with a body parameter of the same name (and responses without schema),
 		// one of them with a default its schema rejects: the visited-path bookkeeping must start afresh for each parameter (C09)
+		if paths == nil {
+			return false
+		}
 		for i := 0; i < 4; i++ {
 			bad := i == g.rng.Intn(4) || i == 3
 			sch := M{"type": "object", "properties": M{"k": M{"type": "integer", "default": 1}}}
